@@ -337,7 +337,7 @@ func (x *vc) script(o *obligation) string {
 	if strings.Contains(own, "(keystr ") {
 		b.WriteString(strkeyAxioms)
 	}
-	if body := b.String() + o.goal + o.guard; strings.Contains(body, "rv_") || strings.Contains(body, "kind_of_type") || strings.Contains(body, " RV)") || strings.Contains(body, " RV ") {
+	if body := b.String() + o.goal + o.guard; strings.Contains(body, "rv_") || strings.Contains(body, "rt_implements") || strings.Contains(body, "kind_of_type") || strings.Contains(body, " RV)") || strings.Contains(body, " RV ") {
 		body = b.String()
 		// the reflect model's declarations must precede their uses: rebuild with them after the prelude
 		rest := body[len(prelude):]
